@@ -182,6 +182,10 @@ package wire
 //@   ensures [C11] result.1 == nil ==> result.0 != nil && result.0.Iface != nil && result.0.Provided != nil && (result.0.Iface.Underlying() is *types.Interface)
 //@   ensures [C11] result.1 == nil ==> types.Implements(result.0.Provided, result.0.Iface.Underlying().(*types.Interface))
 //@   ensures [C11] result.1 == nil ==> tid(result.0.Iface) != tid(result.0.Provided)
+// C10: when the bindings of a set are processed, every other source of the set (injector arguments,
+// every key of every imported set, provider outputs, values, field outputs) is already in the map, so
+// whether a binding finds its concrete type does not depend on the order or kind of the other items.
+//@ define allSourcesIn(pm *typeutil.Map, set *ProviderSet) = (forall i, o :: 0 <= i && i < len(set.Providers) && 0 <= o && o < len(set.Providers[i].Out) ==> TMD[pm][tid(set.Providers[i].Out[o])]) && (forall i :: 0 <= i && i < len(set.Values) ==> TMD[pm][tid(set.Values[i].Out)]) && (forall i, o :: 0 <= i && i < len(set.Fields) && 0 <= o && o < len(set.Fields[i].Out) ==> TMD[pm][tid(set.Fields[i].Out[o])]) && (forall i, q int :: 0 <= i && i < len(set.Imports) && TMD[set.Imports[i].providerMap][q] ==> TMD[pm][q])
 //@ func buildProviderMap
 //@   requires forall i :: 0 <= i && i < len(set.Imports) ==> set.Imports[i].providerMap != nil && set.Imports[i].srcMap != nil
 //@   ensures [C05] len(result.2) > 0 ==> result.0 == nil && result.1 == nil
@@ -226,6 +230,7 @@ package wire
 //@   loop 8 invariant mapsOK(providerMap, srcMap) && ec != nil
 //@   loop 8 invariant len(ec.errors) == 0 ==> dOA(providerMap)
 //@   loop 8 invariant [C11] len(ec.errors) == 0 ==> boundTo(providerMap, set.Bindings, done)
+//@   loop 8 invariant [C10] len(ec.errors) == 0 ==> allSourcesIn(providerMap, set)
 //@   loop 8 invariant [C02] len(ec.errors) == 0 ==> provArgsAll(providerMap, set)
 //@   loop 8 invariant [C05] len(ec.errors) == 0 ==> ownsAllArgs(srcMap, set) && ownsImps(srcMap, set.Imports, len(set.Imports)) && ownsProvs(srcMap, set.Providers, len(set.Providers)) && ownsVals(srcMap, set.Values, len(set.Values)) && ownsFields(srcMap, set.Fields, len(set.Fields)) && ownsBinds(srcMap, set.Bindings, done)
 
@@ -553,6 +558,10 @@ package wire
 // iteration order of the table.  (That line k of the loop prints element k is the range loop itself; a
 // trace invariant for it was tried and dropped: unstable solver behaviour.)
 //@ define sortedStrs(xs []string) = forall a, b :: 0 <= a && a < b && b < len(xs) ==> str_le(xs[a], xs[b])
+// C16: the output of a package is built by a generator that starts empty (nothing carried over from
+// another package of the same invocation).
+//@ func generateInjectors
+//@   requires [C16] g.imports != nil && g.anonImports != nil && g.values != nil && len(g.imports) == 0 && len(g.anonImports) == 0 && len(g.values) == 0
 //@ func (*gen).frame
 //@   loop 1 invariant [C16] forall q :: 0 <= q && q < len(imps) ==> has(g.imports, imps[q])
 //@   loop 2 invariant [C16] sortedStrs(imps) && (forall q :: 0 <= q && q < len(imps) ==> has(g.imports, imps[q]))
@@ -570,6 +579,7 @@ package wire
 
 //@ func newGen
 //@   ensures result != nil && fresh(result)
+//@   ensures [C16] len(result.imports) == 0 && len(result.anonImports) == 0 && len(result.values) == 0 && result.imports != nil && result.anonImports != nil && result.values != nil && result.pkg == pkg
 //@ func newObjectCache
 //@   requires len(pkgs) > 0
 //@   ensures result != nil
@@ -648,6 +658,7 @@ package wire
 //@ func processValue$1
 //@   requires info != nil
 //@   ensures [C13] !allowedValueNode(info, node) ==> !ok && !result
+//@   ensures [C13] allowedValueNode(info, node) ==> result
 //@   frame [C13] old(!ok) ==> !ok
 //@ func verifyAcyclic$1
 //@   requires 0 <= i && i < len(outputs) && 0 <= j && j < len(outputs) && outputs[i] != nil && outputs[j] != nil
